@@ -53,13 +53,15 @@ const (
 	OpResRemove                  // remove resource N
 	OpInvalid                    // an invalid call (see Inv)
 	OpRegisterComp               // register a new dummy component type
+	OpTouch                      // open a query of filter F (+QT) and close it immediately
+	OpLoadEntities               // Unsafe.LoadEntities of a dump taken from this world (only as locked-world probe)
 	NumKinds
 )
 
 var kindNames = [...]string{"NewPlain", "NewEntities", "New", "NewBatch", "Copy", "Add", "Remove", "Exchange", "Set", "Write",
 	"SetRel", "RemoveEntity", "AddBatch", "RemoveBatch", "ExchangeBatch", "SetRelBatch", "RemoveEntities", "Register",
 	"Unregister", "Open", "Next", "Close", "Count", "Shrink", "ShrinkLimit", "Reset", "Stats", "Observe", "Unobserve", "Emit",
-	"DumpLoad", "GC", "ResAdd", "ResRemove", "Invalid", "RegisterComp"}
+	"DumpLoad", "GC", "ResAdd", "ResRemove", "Invalid", "RegisterComp", "Touch", "LoadEntities"}
 
 func (k Kind) String() string { return kindNames[k] }
 
@@ -158,8 +160,8 @@ func (o Op) String() string {
 		s += fmt.Sprintf("(#%d,%s via %s)", o.E, relStr(o.T), o.Path)
 	case OpAddBatch, OpRemoveBatch, OpExchangeBatch, OpSetRelBatch, OpRemoveEntities:
 		s += fmt.Sprintf("(f%d%s: +%s-%s%s via %s init=%d fn=%v)", o.F, relStr(o.QT), o.Cs, o.Rm, relStr(o.T), o.Path, o.Init, o.Fn)
-	case OpRegister, OpUnregister:
-		s += fmt.Sprintf("(f%d)", o.F)
+	case OpRegister, OpUnregister, OpTouch:
+		s += fmt.Sprintf("(f%d%s)", o.F, relStr(o.QT))
 	case OpOpen:
 		s += fmt.Sprintf("(q%d=f%d%s)", o.Q, o.F, relStr(o.QT))
 	case OpNext, OpClose, OpCount:
@@ -173,7 +175,7 @@ func (o Op) String() string {
 	case OpResAdd, OpResRemove, OpRegisterComp:
 		s += fmt.Sprintf("(%d)", o.N)
 	case OpInvalid:
-		s += fmt.Sprintf("(kind=%d #%d %s %s%s via %s)", o.Inv, o.E, o.Cs, o.Rm, relStr(o.T), o.Path)
+		s += fmt.Sprintf("(kind=%d method=%d #%d %s %s%s via %s)", o.Inv, o.N, o.E, o.Tuple(), o.Rm, relStr(o.T), o.Path)
 	}
 	return s
 }
@@ -482,7 +484,7 @@ type Result struct {
 func structural(k Kind) bool {
 	switch k {
 	case OpNewPlain, OpNewEntities, OpNew, OpNewBatch, OpCopy, OpAdd, OpRemove, OpExchange, OpSetRel, OpRemoveEntity,
-		OpAddBatch, OpRemoveBatch, OpExchangeBatch, OpSetRelBatch, OpRemoveEntities, OpReset, OpDumpLoad, OpRegisterComp:
+		OpAddBatch, OpRemoveBatch, OpExchangeBatch, OpSetRelBatch, OpRemoveEntities, OpReset, OpDumpLoad, OpRegisterComp, OpLoadEntities:
 		return true
 	}
 	return false
@@ -712,12 +714,18 @@ func (m *Model) Valid(op *Op) bool {
 		return m.Reg[op.F]
 	case OpOpen:
 		return !m.Queries[op.Q].Open && m.filterUsable(op.F, op.QT)
+	case OpTouch:
+		return m.filterUsable(op.F, op.QT)
 	case OpNext, OpClose, OpCount:
 		return true
 	case OpObserve:
 		return !m.ObsReg[op.O]
 	case OpUnobserve:
 		return m.ObsReg[op.O]
+	case OpResAdd:
+		return m.Res[op.N] == 0
+	case OpResRemove:
+		return m.Res[op.N] != 0
 	case OpEmit:
 		if op.E == ZeroTarget {
 			return op.Cs == 0
@@ -753,7 +761,7 @@ func (m *Model) filterUsable(f int, qt []RelT) bool {
 // written by the op; it is called in a deterministic order.
 func (m *Model) Apply(op *Op) Result {
 	var res Result
-	if structural(op.K) && m.Locked() {
+	if (structural(op.K) && m.Locked()) || op.K == OpInvalid {
 		res.Panics = true
 		return res
 	}
@@ -938,6 +946,8 @@ func (m *Model) Apply(op *Op) Result {
 	case OpClose:
 		m.Queries[op.Q].Open = false
 	case OpCount, OpShrink, OpShrinkLimit, OpStats, OpGC:
+	case OpTouch:
+		m.markCreated(op.F)
 	case OpReset:
 		m.reset()
 	case OpDumpLoad:
